@@ -76,6 +76,8 @@ func main() {
 		default:
 			usage()
 		}
+	case "render":
+		runRender(os.Stdin, os.Stdout)
 	case "oneshot":
 		var perm int64
 		if len(os.Args) > 2 {
